@@ -368,6 +368,28 @@ func c17CheckUser(ctx *vfCtx, c c17IDCase) {
 		ctx.Fail("C17/userid/result-shape", "NewUserID(%q, %v) returned user %v together with error %v", s, c.Historical, u, err)
 		return
 	}
+	// the convenience wrapper accepts exactly what NewUserID accepts under the same grammar (it panics
+	// where NewUserID returns an error - its documented contract)
+	{
+		var pu UserID
+		panicked := false
+		func() {
+			defer func() {
+				if recover() != nil {
+					panicked = true
+				}
+			}()
+			pu = NewUserIDOrPanic(s, c.Historical)
+		}()
+		if panicked != (err != nil) {
+			ctx.Fail("C17/userid/or-panic-wrapper-disagrees/"+mode, "NewUserID(%q, %v) error: %v; NewUserIDOrPanic(%q, %v) panicked: %v", s, c.Historical, err, s, c.Historical, panicked)
+			return
+		}
+		if !panicked && u != nil && pu.String() != u.String() {
+			ctx.Fail("C17/userid/or-panic-wrapper-disagrees/"+mode, "NewUserIDOrPanic(%q) gives %q, NewUserID %q", s, pu.String(), u.String())
+			return
+		}
+	}
 	switch ref.v {
 	case c17Unjudged:
 		ctx.Class("ref/unjudged/" + ref.why)
